@@ -730,7 +730,8 @@ Section Seq.
     exists vs rest, cells a = map Some vs ++ rest /\ length vs = nitems a /\ length (cells a) = nslots a.
   Definition l_inv (l : llist) : Prop := lnitems l = length (lelems l).
   (* pairwise distinct pointers (finding F3: Tuple iteration is by pointer identity) *)
-  Definition distinct (vs : list E) : Prop := ForallOrdPairs (fun x y => same x y = false) vs.
+  Definition distinct (vs : list E) : Prop :=
+    ForallOrdPairs (fun x y => same x y = false /\ same y x = false) vs.
   Definition t_inv (t : tuple) : Prop :=
     theap t = true /\ exists vs, titems t = map TObj vs ++ [TTerm] /\ distinct vs.
 
